@@ -92,6 +92,7 @@ def check_group2(run, rule, F, crate, group, expect, only=None, what=None):
     fns = {summ.fn_key(f): f for f in fns_of_group(crate, group) if specified(f)}
     ren = renames(F, crate, expect)
     n = 0
+    served = set()        # generic impls judged through the specified instances they serve
     for key, want in sorted(expect.get(group, {}).items()):
         if only and not only(key):
             continue
@@ -104,22 +105,10 @@ def check_group2(run, rule, F, crate, group, expect, only=None, what=None):
                 run.note("%s is now %s (type moved between modules)" % (key, summ.fn_key(f)))
         subst = None
         if f is None and key.startswith("<"):
-            # one generic impl may have replaced a family of per-type impls (`impl<T: Sealed> Tr for W<T>` instead of a macro):
-            # the specified instance is that impl at the instance's type arguments
-            m = re.match(r"^<(.*) as ([\w:<>', ]+)>::(\w+)$", key)
-            if m:
-                ty, tr, meth = m.groups()
-                cands = []
-                for g in crate.fns:
-                    gens = set(getattr(g, "generics", None) or [])
-                    if g.name != meth or not g.impl_self or not gens or not specified(g) or (g.impl_trait or "-").split("::")[-1] != tr.split("<")[0]:
-                        continue
-                    b = {}
-                    if sym.unify_ty(g.impl_self, ty, gens, b) and b and summ.fn_key(g) not in expect.get(group, {}):
-                        cands.append((g, b))
-                if len(cands) == 1:
-                    f, subst = cands[0]
-                    run.note("%s is %s at %s" % (key, summ.fn_key(f), subst))
+            f, subst = generic_instance(crate, key, expect.get(group, {}))
+            if f is not None:
+                served.add(summ.fn_key(f))
+                run.note("%s is %s at %s" % (key, summ.fn_key(f), subst))
         if f is None:
             run.bad(rule, key, "specified function not found in the analysed crate (public API or trait method renamed or removed?)")
             continue
@@ -129,11 +118,33 @@ def check_group2(run, rule, F, crate, group, expect, only=None, what=None):
         if only and not only(key):
             continue
         if key not in expect.get(group, {}):
+            if key in served:
+                continue
             if f.impl_trait is None:
                 run.note("unspecified new public function in group %s (not judged): %s" % (group, key))
             else:
                 run.bad(rule, key, "trait method of group %s has no specified summary (new override touching the mechanism)" % group, f.where())
     return n
+
+
+def generic_instance(crate, key, taken=()):
+    """one generic impl may have replaced a family of per-type impls (`impl<T: Sealed> Tr for W<T>` instead of a macro): the specified
+    instance `<W<i32> as Tr>::m` is that impl's method at the instance's type arguments -> (fn, {param: type}) or (None, None)"""
+    m = re.match(r"^<(.*) as ([\w:<>', ]+)>::(\w+)$", key)
+    if not m:
+        return None, None
+    ty, tr, meth = m.groups()
+    cands = []
+    for g in crate.fns:
+        gens = set(getattr(g, "generics", None) or [])
+        if g.name != meth or not g.impl_self or not gens or not specified(g) or (g.impl_trait or "-").split("::")[-1] != tr.split("<")[0]:
+            continue
+        b = {}
+        if sym.unify_ty(g.impl_self, ty, gens, b) and b and summ.fn_key(g) not in taken:
+            cands.append((g, b))
+    if len(cands) == 1:
+        return cands[0]
+    return None, None
 
 
 _REN = {}
